@@ -204,6 +204,7 @@ var stdlog = &logSink{}
 type SigTriple struct{ Key, Msg, Sig []byte }
 
 type World struct {
+	detached bool // the server was given up on (Detach): Close only removes the directory
 	CloseErr error // what the last Close() of the server returned
 	Dir      string
 	S        *server.GCAServer
@@ -272,7 +273,7 @@ var CaptureFromStart func(n int) bool
 func (w *World) CloseServer() (panicked string) {
 	openGates()
 	w.StopCapture()
-	if w.S != nil {
+	if w.S != nil && !w.detached {
 		func() {
 			defer func() {
 				if e := recover(); e != nil {
@@ -289,6 +290,21 @@ func (w *World) CloseServer() (panicked string) {
 	return
 }
 
+// Detach gives up on a server that may be wedged: it is closed in the background (which may never
+// finish) and forgotten, so that a later Close of the world only removes the directory.
+func (w *World) Detach() {
+	s := w.S
+	if s == nil || w.detached {
+		return
+	}
+	w.detached = true // w.S stays set: goroutines of the suite that are stuck in a call on it may still return
+	openGates()
+	go func() {
+		defer func() { recover() }()
+		s.Close()
+	}()
+}
+
 // Close shuts the server down and removes the directory.
 func (w *World) Close() (panicked string) {
 	defer func() {
@@ -297,7 +313,7 @@ func (w *World) Close() (panicked string) {
 		}
 	}()
 	openGates()
-	if w.S != nil {
+	if w.S != nil && !w.detached {
 		func() {
 			defer func() {
 				if e := recover(); e != nil {
